@@ -128,8 +128,8 @@ func (w *world) mk(id, ver int) elem {
 		size := 64 * (1 + uint64(h2[4]%3) + uint64(ver))
 		host := 5000 + u64(h2, 8)%20000
 		fc := types.V2FileContract{Capacity: size + 64*uint64(h2[6]%3), Filesize: size, FileMerkleRoot: w.fileRoot(size),
-			RenterOutput: types.SiacoinOutput{Value: types.NewCurrency64(20000 + u64(h2, 16)%20000), Address: K.Addr("A")},
-			HostOutput:   types.SiacoinOutput{Value: types.NewCurrency64(host), Address: K.Addr("B")},
+			RenterOutput:    types.SiacoinOutput{Value: types.NewCurrency64(20000 + u64(h2, 16)%20000), Address: K.Addr("A")},
+			HostOutput:      types.SiacoinOutput{Value: types.NewCurrency64(host), Address: K.Addr("B")},
 			MissedHostValue: types.NewCurrency64(host / 2), TotalCollateral: types.NewCurrency64(host / 4),
 			RenterPublicKey: K.PK("R"), HostPublicKey: K.PK("H"), RevisionNumber: uint64(ver)}
 		if id%2 == 0 {
